@@ -88,6 +88,7 @@ fn main() {
         "C06" => go(props::c06::C06, rest),
         "C07" => go(props::c07::C07, rest),
         "C09" => go(props::c09::C09, rest),
+        "C18" => go(props::c18::C18, rest),
         "C19" => go(props::c19::C19, rest),
         _ => {
             eprintln!("unknown property {}", id);
